@@ -12,10 +12,13 @@ def add(pid, ref, technique, text, note):
 exec(open(os.path.join(HERE, "tools", "manifest_table.py")).read())
 
 NOT_YET = {}
+# checks that exist but are withheld from the manifest for the moment (id -> reason), tools/pending.json
+_pf = os.path.join(HERE, "tools", "pending.json")
+PENDING = json.load(open(_pf)) if os.path.exists(_pf) else {}
 checks = []
 for p in props:
     pid = p["id"]
-    if pid not in CHECKS:
+    if pid not in CHECKS or pid in PENDING:
         continue
     ref, technique, text, note = CHECKS[pid]
     checks.append(dict(
@@ -41,11 +44,11 @@ m = dict(
         add_only=True,
     ),
     engines=[dict(name="lean4-proof+correspondence", path="check",
-                  serves_properties=sorted(CHECKS),
+                  serves_properties=sorted(p for p in CHECKS if p not in PENDING),
                   kind_free_text="Lean 4 theorems about hand-written executable models (lean/Cfdm/Props), tied to /repo on every run by a differential correspondence check against the compiled model driver plus an independent oracle; tables regenerated from /repo")],
     checks=checks,
     notes="See DESIGN.md. Every check: lake build + axiom audit of Cfdm.Props.<id>, then correspondence (implementation vs Lean model driver on the same seeded inputs), then an independent oracle; known findings in known_findings.json.",
-    not_applicable=[dict(property_id=p["id"], reason=NOT_BUILT.get(p["id"], "check not built yet in this session; see DESIGN.md §4 for the planned model")) for p in props if p["id"] not in CHECKS],
+    not_applicable=[dict(property_id=p["id"], reason=PENDING.get(p["id"], NOT_BUILT.get(p["id"], "check not built yet in this session; see DESIGN.md §4 for the planned model"))) for p in props if p["id"] not in CHECKS or p["id"] in PENDING],
 )
 json.dump(m, open(os.path.join(HERE, "MANIFEST.json"), "w"), indent=1)
 print("checks:", [c["property_id"] for c in checks], "not_applicable:", [n["property_id"] for n in m["not_applicable"]])
